@@ -5,6 +5,7 @@
 pub mod alloc;
 pub mod findings;
 pub mod gen;
+pub mod hang;
 pub mod model;
 pub mod props;
 pub mod runner;
